@@ -138,9 +138,9 @@ func (i *interpreter) zzCall(fr *frame, fn *ssa.Function, args []value) value {
 		px.assertTerm("(bvult " + id.t + " " + bvLit(uint64(k), 8) + ")")
 		return symstr{id: id}
 	case "AnyFloat64":
-		return px.fresh(strArg(args[0]), kFP, 64)
+		return px.fpFromBits(px.fresh(strArg(args[0]), kBV, 64), 64)
 	case "AnyFloat32":
-		return px.fresh(strArg(args[0]), kFP, 32)
+		return px.fpFromBits(px.fresh(strArg(args[0]), kBV, 32), 32)
 	case "AnyIntIn":
 		lo, hi := asInt64(args[1]), asInt64(args[2])
 		if lo > hi {
@@ -330,7 +330,37 @@ func init() {
 		"github.com/spaolacci/murmur3.Sum32WithSeed":        intMurmur,
 		"github.com/spaolacci/murmur3.Sum32":                func(fr *frame, a []value) value { return intMurmur(fr, []value{a[0], uint32(0)}) },
 		"runtime.Caller": func(fr *frame, a []value) value { return tuple{uintptr(0), "verif.go", 1, true} },
-		"runtime.Callers": func(fr *frame, a []value) value { return 0 },
+		"runtime.Callers": func(fr *frame, a []value) value {
+			pc := a[1].([]value)
+			if len(pc) == 0 {
+				return 0
+			}
+			pc[0] = uintptr(1)
+			return 1
+		},
+		"runtime.CallersFrames": func(fr *frame, a []value) value {
+			t := fr.fn.Signature.Results().At(0).Type().Underlying().(*types.Pointer).Elem()
+			v := zero(t)
+			return &v
+		},
+		"(*runtime.Frames).Next": func(fr *frame, a []value) value {
+			ft := fr.fn.Signature.Results().At(0).Type()
+			f := zero(ft).(structure)
+			st := ft.Underlying().(*types.Struct)
+			for k := 0; k < st.NumFields(); k++ {
+				switch st.Field(k).Name() {
+				case "PC":
+					f[k] = uintptr(1)
+				case "Function":
+					f[k] = "verif.caller"
+				case "File":
+					f[k] = "verif.go"
+				case "Line":
+					f[k] = 1
+				}
+			}
+			return tuple{f, false}
+		},
 		"runtime.NumCPU": func(fr *frame, a []value) value { return 4 },
 		"runtime.GOMAXPROCS": func(fr *frame, a []value) value { return 4 },
 		"runtime.Gosched": func(fr *frame, a []value) value { return nil },
